@@ -180,6 +180,11 @@ where
 {
     fn write(&mut self, buf: &[u8]) -> std::io::Result<usize> {
         let total_len = (self.max_pdu_length + PDU_HEADER_SIZE) as usize;
+        if self.buffer.len() == total_len && !buf.is_empty() {
+            // buffer was filled exactly by a previous write:
+            // send it now, so that a non-empty write never returns Ok(0)
+            self.dispatch_pdu()?;
+        }
         if self.buffer.len() + buf.len() <= total_len {
             // accumulate into buffer, do nothing
             self.buffer.extend(buf);
@@ -580,6 +585,12 @@ pub mod non_blocking {
                                     if written == this.buffer.len() {
                                         // If we wrote the whole buffer, reset `self.buffer`
                                         this.buffer.truncate(PDU_PDV_HEADER_SIZE);
+                                        if consumed == 0 {
+                                            // buffer had been filled exactly by a previous write,
+                                            // so nothing was taken from `buf` yet:
+                                            // never return Ok(0) for a non-empty write
+                                            return self.poll_write(cx, buf);
+                                        }
                                         return Poll::Ready(Ok(consumed));
                                     }
                                 }
@@ -622,6 +633,10 @@ pub mod non_blocking {
                                     // If we wrote the whole buffer, reset `self.buffer` and change state back to ready
                                     this.buffer.truncate(PDU_PDV_HEADER_SIZE);
                                     this.state = WriteState::Ready;
+                                    if consumed == 0 {
+                                        // nothing was taken from `buf` yet (see above)
+                                        return self.poll_write(cx, buf);
+                                    }
                                     return Poll::Ready(Ok(consumed));
                                 }
                             }
